@@ -20,6 +20,7 @@ import (
 	"strconv"
 	"strings"
 	"testing"
+	"time"
 
 	"github.com/go-openapi/runtime"
 	"github.com/go-openapi/runtime/client"
@@ -56,7 +57,7 @@ func (prop) Describe() kernel.Description {
 			"registry with or without */*, operation-level vs runtime-level client and context: the consumer handed to the reader must be registry[media type] else */* else an " +
 			"error naming the type, and code/message/headers/body must arrive unchanged. distinct = distinct schedule signature (task order at every switch, change points, yield " +
 			"count) or distinct (spelling, registry, outcome) tuple; non-trivial = a schedule with ≥1 preemption, or a non-plain Content-Type spelling.",
-		Real: []string{"client.Runtime.Submit / createHttpRequest / buildHTTP (instrumented with yield points)", "client.response adapter", "net/http.Client.Do", "sync.Once client creation"},
+		Real:  []string{"client.Runtime.Submit / createHttpRequest / buildHTTP (instrumented with yield points)", "client.response adapter", "net/http.Client.Do", "sync.Once client creation"},
 		Stubs: []string{"network: token-echoing RoundTripper", "params writer / response reader (scripted, per task)", "consumers (identity-tagged)"},
 		Assumptions: []string{
 			"K2 workloads contain no multipart bodies, stalls or timeouts (no fake clock under K2); those are C11/C12's",
@@ -153,7 +154,8 @@ func runSelection(t *testing.T, tape *kernel.Tape) *kernel.Result {
 		}
 	}
 	opClient, opCtx, rtCtx := tape.Bool(3, "op-client"), tape.Bool(2, "op-ctx"), tape.Bool(2, "rt-ctx")
-	res.Summary = fmt.Sprintf("A: content-type=%q (%s) registry=%06b catchall=%v default=%s status=%d opclient=%v opctx=%v rtctx=%v", sp.header, sp.class, mask, catchAll, defMT, status, opClient, opCtx, rtCtx)
+	rtCtxDone := rtCtx && tape.Bool(4, "rt-ctx-already-cancelled")
+	res.Summary = fmt.Sprintf("A: content-type=%q (%s) registry=%06b catchall=%v default=%s status=%d opclient=%v opctx=%v rtctx=%v rtctxdone=%v", sp.header, sp.class, mask, catchAll, defMT, status, opClient, opCtx, rtCtx, rtCtxDone)
 	if sp.class != "plain" {
 		env.Fault("spelling-" + sp.class)
 	}
@@ -162,6 +164,13 @@ func runSelection(t *testing.T, tape *kernel.Tape) *kernel.Result {
 	mkTransport := func(tag string) http.RoundTripper {
 		return roundTripFunc(func(req *http.Request) (*http.Response, error) {
 			seenCtx = req.Context()
+			if rtCtxDone && opCtx {
+				// give anything that watches the transport-wide context its chance to interfere
+				time.Sleep(2 * time.Millisecond)
+			}
+			if err := req.Context().Err(); err != nil {
+				return nil, err
+			}
 			h := hdrs.Clone()
 			h.Set("X-Served-By", tag)
 			return &http.Response{StatusCode: status, Status: fmt.Sprintf("%d %s", status, http.StatusText(status)), Header: h,
@@ -174,6 +183,12 @@ func runSelection(t *testing.T, tape *kernel.Tape) *kernel.Result {
 	rt.DefaultMediaType = defMT
 	if rtCtx {
 		rt.Context = context.WithValue(context.Background(), ctxKey("who"), "runtime")
+		if rtCtxDone {
+			c, cancel := context.WithCancel(rt.Context)
+			cancel()
+			rt.Context = c
+			env.Fault("runtime-context-already-cancelled")
+		}
 	}
 	var (
 		gotCons   runtime.Consumer
@@ -211,6 +226,20 @@ func runSelection(t *testing.T, tape *kernel.Tape) *kernel.Result {
 		return res
 	}
 	env.Log("caller", "Submit err=%v reader=%v consumer=%v", err, readerRan, gotCons)
+	if rtCtxDone {
+		// a per-operation context takes precedence over the transport-wide one
+		switch {
+		case opCtx && err != nil && strings.Contains(err.Error(), "context canceled"):
+			env.Violate("C13/precedence", "context:cancelled-runtime-context-aborts-operation-context", "the operation carries its own live context, yet the call failed because the transport-wide context is cancelled: %v", err)
+		case !opCtx && err == nil:
+			env.Violate("C13/precedence", "context:cancelled-runtime-context-ignored", "no operation context and the transport-wide context is cancelled, yet the call went through")
+		}
+		if !opCtx {
+			res.FromEnv(env)
+			res.Sig = kernel.Mix(res.Sig, kernel.HashString(res.Summary))
+			return res
+		}
+	}
 	// reference
 	media := sp.media
 	if media == "absent" {
